@@ -490,8 +490,13 @@ nni_dialer_start_aio(nni_dialer *d, unsigned flags, nni_aio *aiop)
 		return (NNG_ESTATE);
 	}
 
-	if (aiop != NULL) {
-		nni_aio_start(aiop, NULL, NULL);
+	if ((aiop != NULL) && (!nni_aio_start(aiop, NULL, NULL))) {
+		// The aio was stopped, aborted or had already expired, and
+		// has been completed with that result.  It must not be
+		// completed a second time by the connect callback, so the
+		// dialer is not started on its behalf.
+		nni_atomic_flag_reset(&d->d_started);
+		return (0);
 	}
 
 	// Note that flags is currently unused, since the only flag is
